@@ -7,7 +7,7 @@
 
 struct wv_probe
 {
-  static int inst_null() { return buffergroup::instance == NULL; }
+  static int inst_null() { return !buffergroup::instance; }
   static int live() { return bufferctrl::live_num; }
 };
 
